@@ -37,9 +37,13 @@ def gen_model(rng, size="small", feats=None):
         "endtime": p(0.35), "maxdur": p(0.3), "maxstops": p(0.3), "maxdist": p(0.3),
         "attrs": p(0.3), "precedence": p(0.4), "no_startloc": p(0.15), "penalties": p(0.6),
         "activation": p(0.5), "nonmetric": p(0.5), "tight": p(0.5), "user": False, "groups": False, "initial": False,
+        "colocated": False, "one_vehicle": False,
     }
     if feats:
         F.update(feats)
+    if F["one_vehicle"]:
+        nv = 1
+        n = max(n, 4)
     nres = 0
     res_mode = "none"
     if F["capacity"]:
@@ -49,6 +53,8 @@ def gen_model(rng, size="small", feats=None):
             nres, res_mode = rng.randint(1, 2), "map"
     N = n + 2 * nv
     hi = 900 if F["tight"] else 300
+    if F["colocated"]:
+        hi = rng.choice([0, 30, 120])   # waiting dominates travelling
     dur = [[0 if i == j else rng.randint(0, hi) for j in range(N)] for i in range(N)]
     if not F["nonmetric"]:
         # make it a shortest-path closure (metric)
@@ -65,7 +71,7 @@ def gen_model(rng, size="small", feats=None):
         if nres and p(0.8):
             s["quantity"] = [rng.choice([-3, -2, -1, -1, 0, 1, 1, 2]) for _ in range(nres)]
         if F["windows"] and p(0.6):
-            a = T0 + 60 * rng.randint(0, 120)
+            a = T0 + 60 * rng.randint(0, 40 if F["colocated"] else 120)
             ln = 60 * rng.choice([5, 10, 30, 60, 120])
             ws = [(a, a + ln)]
             if p(0.35):
@@ -366,6 +372,8 @@ def gen_ops(rng, m, nops, mode="unchecked"):
         maxu = max(maxu, sum(len(m["units"][ui]["stops"]) for ui in g))
     for _ in range(nops):
         r = rng.random()
+        if mode == "checked_grow":
+            r = r * 0.62 if r < 0.85 else 0.62 + (r - 0.85) / 0.15 * 0.38   # 85% plan operations: long routes
         if r < 0.62:
             kind = "planr" if mode == "unchecked" or (mode == "checked" and rng.random() < 0.3) else "plancr"
             ops.append("op %s %d %d %d %s" % (kind, rng.randrange(1 << 20), rng.randrange(1 << 20), rng.randrange(1 << 20),
